@@ -12,6 +12,8 @@ What stays unbridged is said at the end of each part and in `notes/QMatRefines.m
 -/
 import IrisVerif.Lemmas.QMatRefines
 import IrisVerif.Props.C18
+import IrisVerif.Props.C01
+import IrisVerif.Model.FirstOrder
 import Mathlib.Algebra.Order.Field.Rat
 
 open Matrix
@@ -281,5 +283,630 @@ What is NOT bridged for C18:
   `C18.companion_step`, `C18.mean_fixed_point` (the lemmas `toMat_smul`, `toMat_mul`, `toMat_transpose`,
   `solveChecked_sound`, `toFn_toVec` are what is needed).
 -/
+
+/-! ## Part B: C01 -- the executable certificate computes the theorem-level certificate matrices
+
+`FirstOrder.certificate` (run by the C01 driver on the rational images of irispie's system and solution matrices)
+builds `E1 E2 E3 E4_1…E4_smax W` with `QMat` operations, an array of powers of `T`, an array of partial geometric
+sums and a fold carrying `(V_a, [E4_1 … E4_a])`.  Below each piece is shown to be, seen through `QMat.toMat`, the
+corresponding definition of `Props/C01.lean` (`Lmat lK Mmat E1 E2 E3 leadMat Vmat E4`) on the views of the inputs;
+then the `Certified` hypothesis of `C01.equations_hold` is *derived* from the executable certificate being exactly
+zero, and `C01.residAt_expansion` is restated with the executable blocks for the inexact (float-born) case. -/
+
+section C01
+open IrisVerif.FirstOrder
+
+theorem le_foldl_max (l : List Nat) (init x : Nat) (hx : x ∈ l ∨ x ≤ init) : x ≤ l.foldl max init := by
+  induction l generalizing init with
+  | nil =>
+    rcases hx with h | h
+    · cases h
+    · exact h
+  | cons a l ih =>
+    rw [List.foldl_cons]
+    apply ih
+    rcases hx with h | h
+    · rcases List.mem_cons.1 h with h | h
+      · right; rw [h]; exact Nat.le_max_right _ _
+      · left; exact h
+    · right; exact Nat.le_trans h (Nat.le_max_left _ _)
+
+theorem mapM_option_spec {α β : Type} (f : α → Option β) (l : List α) (r : List β) (h : l.mapM f = some r) :
+    r.length = l.length ∧ ∀ y ∈ r, ∃ x ∈ l, f x = some y := by
+  induction l generalizing r with
+  | nil =>
+    simp only [List.mapM_nil, pure, Option.some.injEq] at h
+    subst h
+    exact ⟨rfl, fun y hy => by cases hy⟩
+  | cons a l ih =>
+    rw [List.mapM_cons] at h
+    simp only [bind, Option.bind, pure] at h
+    split at h
+    · cases h
+    · rename_i b hb
+      simp only at h
+      split at h
+      · cases h
+      · rename_i bs hbs
+        cases h
+        obtain ⟨h1, h2⟩ := ih bs hbs
+        refine ⟨by simp [h1], fun y hy => ?_⟩
+        rcases List.mem_cons.1 hy with hy | hy
+        · exact ⟨a, List.mem_cons_self, by rw [hy]; exact hb⟩
+        · obtain ⟨x, hx, hfx⟩ := h2 y hy
+          exact ⟨x, List.mem_cons_of_mem _ hx, hfx⟩
+
+theorem indexOf?_lt (l : List Token) (t : Token) (i : Nat) (h : indexOf? l t = some i) : i < l.length := by
+  unfold indexOf? at h
+  simp only at h
+  split at h
+  · cases h; assumption
+  · cases h
+
+theorem toArray_getD (l : List Nat) (i : Nat) : l.toArray.getD i 0 = l.getD i 0 := by
+  simp [Array.getD_eq_getD_getElem?, List.getD_eq_getElem?_getD]
+
+theorem leadStruct_ok (sysvec : List Token) (ls : LeadStruct) (h : leadStruct sysvec = some ls) :
+    (∀ i, i < ls.nf → ls.sh.getD i 0 ≤ ls.smax) ∧ (∀ i, i < ls.nf → ls.src.getD i 0 < ls.nb) := by
+  unfold leadStruct at h
+  simp only [bind, Option.bind, pure] at h
+  split at h
+  · cases h
+  · rename_i src hsrc
+    cases h
+    obtain ⟨hlen, hmem⟩ := mapM_option_spec _ _ _ hsrc
+    simp only
+    constructor
+    · intro i _
+      apply le_foldl_max
+      by_cases hi : i < (List.map (fun t => t.shift.toNat) (List.take (numForwards sysvec) sysvec)).length
+      · left
+        rw [toArray_getD]
+        rw [List.getD_eq_getElem?_getD, List.getElem?_eq_getElem hi, Option.getD_some]
+        exact List.getElem_mem hi
+      · right
+        rw [toArray_getD]
+        rw [List.getD_eq_getElem?_getD, List.getElem?_eq_none (by omega)]
+        exact Nat.le_refl _
+    · intro i hi
+      have hnf : numForwards sysvec ≤ sysvec.length := by
+        unfold numForwards; exact List.length_filter_le _ _
+      have hi' : i < src.length := by
+        rw [hlen, List.length_take]; omega
+      rw [toArray_getD]
+      rw [List.getD_eq_getElem?_getD, List.getElem?_eq_getElem hi', Option.getD_some]
+      obtain ⟨x, _, hx⟩ := hmem _ (List.getElem_mem hi')
+      exact indexOf?_lt _ _ _ hx
+
+
+/-- `k`-fold iteration with the step index -/
+def iter {α : Type} (f : α → Nat → α) (a0 : α) : Nat → α
+  | 0 => a0
+  | k + 1 => f (iter f a0 k) k
+
+theorem foldl_push_back {α : Type} [Inhabited α] (f : α → Nat → α) (a0 : α) (n : Nat) :
+    ((List.range n).foldl (fun acc k => acc.push (f acc.back! k)) #[a0]).size = n + 1 ∧
+    ∀ k, k ≤ n → ((List.range n).foldl (fun acc k => acc.push (f acc.back! k)) #[a0])[k]? = some (iter f a0 k) := by
+  induction n with
+  | zero =>
+    refine ⟨rfl, fun k hk => ?_⟩
+    have : k = 0 := by omega
+    subst this
+    rfl
+  | succ n ih =>
+    obtain ⟨hsz, hget⟩ := ih
+    rw [List.range_succ, List.foldl_append]
+    simp only [List.foldl_cons, List.foldl_nil]
+    refine ⟨by rw [Array.size_push, hsz], fun k hk => ?_⟩
+    rw [Array.getElem?_push]
+    by_cases hkn : k = n + 1
+    · subst hkn
+      rw [hsz, if_pos rfl]
+      have hb : ((List.range n).foldl (fun acc k => acc.push (f acc.back! k)) #[a0]).back! = iter f a0 n := by
+        rw [Array.back!, hsz]
+        have := hget n (Nat.le_refl _)
+        simp only [Nat.add_sub_cancel]
+        rw [getElem!_def, this]
+      rw [hb]
+      rfl
+    · rw [hsz, if_neg hkn]
+      exact hget k (by omega)
+
+theorem iter_powers (T : QMat) (k : Nat) : iter (fun x (_ : Nat) => x * T) (identity T.rows) k = pow T k := by
+  induction k with
+  | zero => rfl
+  | succ k ih => show iter _ _ k * T = pow T k * T; rw [ih]
+
+theorem powers_getD (T : QMat) (n k : Nat) (hk : k ≤ n) : (powers T n).getD k (QMat.zero 0 0) = pow T k := by
+  unfold powers
+  rw [Array.getD_eq_getD_getElem?]
+  have := (foldl_push_back (fun x (_ : Nat) => x * T) (identity T.rows) n).2 k hk
+  rw [this, Option.getD_some, iter_powers]
+
+theorem powers_getElem? (T : QMat) (n k : Nat) (hk : k ≤ n) : (powers T n)[k]? = some (pow T k) := by
+  unfold powers
+  have := (foldl_push_back (fun x (_ : Nat) => x * T) (identity T.rows) n).2 k hk
+  rw [this, iter_powers]
+
+theorem powers_size (T : QMat) (n : Nat) : (powers T n).size = n + 1 :=
+  (foldl_push_back (fun x (_ : Nat) => x * T) (identity T.rows) n).1
+
+section
+variable {nb : Type} [Fintype nb] [DecidableEq nb] {K : Type} [CommRing K]
+theorem geom_succ' (T : Matrix nb nb K) (j : Nat) : C01.geom T (j + 1) = C01.geom T j + T ^ j := by
+  induction j with
+  | zero => simp [C01.geom]
+  | succ j ih =>
+    show T * C01.geom T (j + 1) + 1 = (T * C01.geom T j + 1) + T ^ (j + 1)
+    rw [ih, Matrix.mul_add, ← pow_succ']
+    abel
+end
+
+/-! ### the pieces of `FirstOrder.certificate`, named -/
+
+def Lq (ls : LeadStruct) (T : QMat) : QMat :=
+  QMat.ofFn ls.nf ls.nb fun i j => ((powers T ls.smax).getD (ls.sh.getD i 0) (QMat.zero 0 0)).get (ls.src.getD i 0) j
+
+def geomArr (ls : LeadStruct) (T K : QMat) : Array QMat :=
+  (List.range ls.smax).foldl (fun acc k => acc.push (acc.back! + ((powers T ls.smax).getD k (QMat.zero 0 0)) * K))
+    #[QMat.zero ls.nb 1]
+
+def lKq (ls : LeadStruct) (T K : QMat) : QMat :=
+  QMat.ofFn ls.nf 1 fun i _ => ((geomArr ls T K).getD (ls.sh.getD i 0) (QMat.zero 0 0)).get (ls.src.getD i 0) 0
+
+def Mq (ls : LeadStruct) (Af Ab T : QMat) : QMat := Af * Lq ls T + Ab
+
+def stepVE (ls : LeadStruct) (Af : QMat) (sol : Solution) (VE : QMat × List QMat) (k : Nat) : QMat × List QMat :=
+  (VE.1 * sol.J - Af * leadRows ls (powers sol.T ls.smax) (k + 1) sol.X,
+   VE.2 ++ [Af * leadRows ls (powers sol.T ls.smax) (k + 1) sol.P + VE.1 * sol.Ru])
+
+def foldVE (ls : LeadStruct) (Af Ab : QMat) (sol : Solution) (n : Nat) : QMat × List QMat :=
+  (List.range n).foldl (stepVE ls Af sol) (-(Mq ls Af Ab sol.T * sol.X), [])
+
+/-- `certificate` in terms of the named pieces (by unfolding) -/
+theorem certificate_eq (sysvec : List Token) (ne : Nat) (sys : System) (sol : Solution) (c : Certificate)
+    (h : certificate sysvec ne sys sol = some c) :
+    ∃ ls, leadStruct sysvec = some ls ∧
+      c.bLead = colsTo (sys.B.selectRows (claimRows sysvec ne)) ls.nf ∧
+      c.E1 = Mq ls (colsTo (sys.A.selectRows (claimRows sysvec ne)) ls.nf)
+                (colsFrom (sys.A.selectRows (claimRows sysvec ne)) ls.nf) sol.T * sol.T
+              + colsFrom (sys.B.selectRows (claimRows sysvec ne)) ls.nf ∧
+      c.E2 = Mq ls (colsTo (sys.A.selectRows (claimRows sysvec ne)) ls.nf)
+                (colsFrom (sys.A.selectRows (claimRows sysvec ne)) ls.nf) sol.T * sol.K
+              + colsTo (sys.A.selectRows (claimRows sysvec ne)) ls.nf * lKq ls sol.T sol.K
+              + sys.C.selectRows (claimRows sysvec ne) ∧
+      c.E3 = Mq ls (colsTo (sys.A.selectRows (claimRows sysvec ne)) ls.nf)
+                (colsFrom (sys.A.selectRows (claimRows sysvec ne)) ls.nf) sol.T * sol.P
+              + sys.D.selectRows (claimRows sysvec ne) ∧
+      c.E4 = (foldVE ls (colsTo (sys.A.selectRows (claimRows sysvec ne)) ls.nf)
+                (colsFrom (sys.A.selectRows (claimRows sysvec ne)) ls.nf) sol ls.smax).2 ∧
+      c.W = (foldVE ls (colsTo (sys.A.selectRows (claimRows sysvec ne)) ls.nf)
+                (colsFrom (sys.A.selectRows (claimRows sysvec ne)) ls.nf) sol ls.smax).1 := by
+  unfold certificate at h
+  simp only [bind, Option.bind] at h
+  split at h
+  · cases h
+  · rename_i ls hls
+    simp only [pure] at h
+    cases h
+    exact ⟨ls, hls, rfl, rfl, rfl, rfl, rfl, rfl⟩
+
+/-! ### the views of the pieces are the theorem-level matrices of `Props/C01.lean` -/
+
+section views
+variable (ls : LeadStruct) (sol : Solution)
+variable (hsh : ∀ i, i < ls.nf → ls.sh.getD i 0 ≤ ls.smax) (hsrc : ∀ i, i < ls.nf → ls.src.getD i 0 < ls.nb)
+
+/-- lead depths and sources as functions on `Fin` -/
+def shF : Fin ls.nf → ℕ := fun i => ls.sh.getD i 0
+def srcF (hsrc : ∀ i, i < ls.nf → ls.src.getD i 0 < ls.nb) : Fin ls.nf → Fin ls.nb :=
+  fun i => ⟨ls.src.getD i 0, hsrc i i.isLt⟩
+
+include hsh in
+theorem Lq_view (T : QMat) (hTr : T.rows = ls.nb) (hTc : T.cols = ls.nb) :
+    (Lq ls T).toMat ls.nf ls.nb = C01.Lmat (T.toMat ls.nb ls.nb) (shF ls) (srcF ls hsrc) := by
+  ext i j
+  unfold Lq C01.Lmat
+  rw [toMat_apply, get_ofFn_of_lt _ _ _ _ _ i.isLt j.isLt, powers_getD _ _ _ (hsh i i.isLt), Matrix.of_apply,
+    ← toMat_pow T ls.nb hTr hTc]
+  rfl
+
+theorem Lq_rows (T : QMat) : (Lq ls T).rows = ls.nf := rfl
+theorem Lq_cols (T : QMat) : (Lq ls T).cols = ls.nb := rfl
+
+include hsh in
+theorem Mq_view (Af Ab T : QMat) (m : Nat) (hAf : Af.rows = m) (hAfc : Af.cols = ls.nf)
+    (hTr : T.rows = ls.nb) (hTc : T.cols = ls.nb) :
+    (Mq ls Af Ab T).toMat m ls.nb =
+      C01.Mmat (T.toMat ls.nb ls.nb) (shF ls) (srcF ls hsrc) (Af.toMat m ls.nf) (Ab.toMat m ls.nb) := by
+  unfold Mq C01.Mmat
+  rw [toMat_add _ _ m ls.nb (by rw [mul_rows, hAf]) (by rw [mul_cols, Lq_cols]),
+    toMat_mul _ _ m ls.nf ls.nb hAf hAfc (Lq_cols ls T), Lq_view ls hsh hsrc T hTr hTc]
+
+theorem Mq_rows (Af Ab T : QMat) : (Mq ls Af Ab T).rows = Af.rows := rfl
+theorem Mq_cols (Af Ab T : QMat) : (Mq ls Af Ab T).cols = ls.nb := rfl
+
+/-- the iteration behind `geomArr` -/
+def geomQ (ls : LeadStruct) (T K : QMat) : Nat → QMat :=
+  iter (fun x k => x + ((powers T ls.smax).getD k (QMat.zero 0 0)) * K) (QMat.zero ls.nb 1)
+
+theorem geomArr_getD (T K : QMat) (j : Nat) (hj : j ≤ ls.smax) :
+    (geomArr ls T K).getD j (QMat.zero 0 0) = geomQ ls T K j := by
+  unfold geomArr geomQ
+  rw [Array.getD_eq_getD_getElem?]
+  have := (foldl_push_back (fun x k => x + ((powers T ls.smax).getD k (QMat.zero 0 0)) * K) (QMat.zero ls.nb 1) ls.smax).2 j hj
+  rw [this, Option.getD_some]
+
+theorem geomQ_view (T K : QMat) (hTr : T.rows = ls.nb) (hTc : T.cols = ls.nb) (hK : K.cols = 1) (j : Nat)
+    (hj : j ≤ ls.smax) :
+    (geomQ ls T K j).rows = ls.nb ∧ (geomQ ls T K j).cols = 1 ∧
+      (geomQ ls T K j).toMat ls.nb 1 = C01.geom (T.toMat ls.nb ls.nb) j * K.toMat ls.nb 1 := by
+  induction j with
+  | zero =>
+    refine ⟨rfl, rfl, ?_⟩
+    show (QMat.zero ls.nb 1).toMat ls.nb 1 = _
+    rw [toMat_zero, C01.geom, Matrix.zero_mul]
+  | succ j ih =>
+    obtain ⟨h1, h2, h3⟩ := ih (by omega)
+    have hstep : geomQ ls T K (j + 1) = geomQ ls T K j + ((powers T ls.smax).getD j (QMat.zero 0 0)) * K := rfl
+    rw [hstep, powers_getD _ _ _ (by omega)]
+    refine ⟨by rw [add_rows, h1], by rw [add_cols, h2], ?_⟩
+    rw [toMat_add _ _ ls.nb 1 h1 h2, h3,
+      toMat_mul _ _ ls.nb ls.nb 1 (by rw [pow_rows, hTr]) (by rw [pow_cols T (hTr.trans hTc.symm), hTc]) hK,
+      toMat_pow T ls.nb hTr hTc, geom_succ', Matrix.add_mul]
+
+include hsh in
+theorem lKq_view (T K : QMat) (hTr : T.rows = ls.nb) (hTc : T.cols = ls.nb) (hK : K.cols = 1) (i : Fin ls.nf) :
+    (lKq ls T K).get i 0 =
+      C01.lK (T.toMat ls.nb ls.nb) (fun k : Fin ls.nb => K.get k 0) (shF ls) (srcF ls hsrc) i := by
+  unfold lKq C01.lK
+  rw [get_ofFn_of_lt _ _ _ _ _ i.isLt (by omega), geomArr_getD ls T K _ (hsh i i.isLt)]
+  have h3 := (geomQ_view ls T K hTr hTc hK _ (hsh i i.isLt)).2.2
+  have := congrFun (congrFun h3 (srcF ls hsrc i)) (0 : Fin 1)
+  rw [toMat_apply] at this
+  exact this
+
+/-! the three unanticipated blocks -/
+
+include hsh in
+theorem E1_view (Af Ab Bb T : QMat) (m : Nat) (hAf : Af.rows = m) (hAfc : Af.cols = ls.nf)
+    (hTr : T.rows = ls.nb) (hTc : T.cols = ls.nb) :
+    (Mq ls Af Ab T * T + Bb).toMat m ls.nb =
+      C01.E1 (T.toMat ls.nb ls.nb) (shF ls) (srcF ls hsrc) (Af.toMat m ls.nf) (Ab.toMat m ls.nb) (Bb.toMat m ls.nb) := by
+  unfold C01.E1
+  rw [toMat_add _ _ m ls.nb (by rw [mul_rows, Mq_rows, hAf]) (by rw [mul_cols, hTc]),
+    toMat_mul _ _ m ls.nb ls.nb (by rw [Mq_rows, hAf]) (Mq_cols ls _ _ _) hTc,
+    Mq_view ls hsh hsrc Af Ab T m hAf hAfc hTr hTc]
+
+include hsh in
+theorem E3_view (Af Ab D T P : QMat) (m nu : Nat) (hAf : Af.rows = m) (hAfc : Af.cols = ls.nf)
+    (hTr : T.rows = ls.nb) (hTc : T.cols = ls.nb) (hP : P.cols = nu) :
+    (Mq ls Af Ab T * P + D).toMat m nu =
+      C01.E3 (T.toMat ls.nb ls.nb) (P.toMat ls.nb nu) (shF ls) (srcF ls hsrc) (Af.toMat m ls.nf) (Ab.toMat m ls.nb)
+        (D.toMat m nu) := by
+  unfold C01.E3
+  rw [toMat_add _ _ m nu (by rw [mul_rows, Mq_rows, hAf]) (by rw [mul_cols, hP]),
+    toMat_mul _ _ m ls.nb nu (by rw [Mq_rows, hAf]) (Mq_cols ls _ _ _) hP,
+    Mq_view ls hsh hsrc Af Ab T m hAf hAfc hTr hTc]
+
+include hsh in
+theorem E2_view (Af Ab C T K : QMat) (m : Nat) (hAf : Af.rows = m) (hAfc : Af.cols = ls.nf)
+    (hTr : T.rows = ls.nb) (hTc : T.cols = ls.nb) (hK : K.cols = 1) :
+    (fun i : Fin m => (Mq ls Af Ab T * K + Af * lKq ls T K + C).get i 0) =
+      C01.E2 (T.toMat ls.nb ls.nb) (fun k : Fin ls.nb => K.get k 0) (shF ls) (srcF ls hsrc)
+        (Af.toMat m ls.nf) (Ab.toMat m ls.nb) (fun i : Fin m => C.get i 0) := by
+  funext i
+  have hv : (Mq ls Af Ab T * K + Af * lKq ls T K + C).toMat m 1
+      = (Mq ls Af Ab T).toMat m ls.nb * K.toMat ls.nb 1 + Af.toMat m ls.nf * (lKq ls T K).toMat ls.nf 1
+          + C.toMat m 1 := by
+    rw [toMat_add _ _ m 1 (by rw [add_rows, mul_rows, Mq_rows, hAf]) (by rw [add_cols, mul_cols, hK]),
+      toMat_add _ _ m 1 (by rw [mul_rows, Mq_rows, hAf]) (by rw [mul_cols, hK]),
+      toMat_mul _ _ m ls.nb 1 (by rw [Mq_rows, hAf]) (Mq_cols ls _ _ _) hK,
+      toMat_mul _ _ m ls.nf 1 hAf hAfc rfl]
+  have := congrFun (congrFun hv i) (0 : Fin 1)
+  rw [toMat_apply] at this
+  show (Mq ls Af Ab T * K + Af * lKq ls T K + C).get i 0 = _
+  rw [show ((0 : Fin 1) : Nat) = 0 from rfl] at this
+  rw [this, Mq_view ls hsh hsrc Af Ab T m hAf hAfc hTr hTc]
+  unfold C01.E2
+  simp only [Matrix.add_apply, Matrix.mul_apply, Pi.add_apply, Matrix.mulVec, dotProduct, toMat_apply]
+  congr 2
+  refine Finset.sum_congr rfl (fun k _ => ?_)
+  rw [show ((0 : Fin 1) : Nat) = 0 from rfl, lKq_view ls hsh hsrc T K hTr hTc hK k]
+
+/-! the anticipated blocks -/
+
+include hsh in
+theorem leadRows_view (T Y : QMat) (c : Nat) (hTr : T.rows = ls.nb) (hTc : T.cols = ls.nb) (hY : Y.cols = c)
+    (a : Nat) (ha : 1 ≤ a) :
+    (leadRows ls (powers T ls.smax) a Y).toMat ls.nf c =
+      C01.leadMat (T.toMat ls.nb ls.nb) (shF ls) (srcF ls hsrc) a (Y.toMat ls.nb c) := by
+  subst hY
+  ext i j
+  unfold leadRows C01.leadMat
+  simp only [toMat_apply, Matrix.of_apply]
+  rw [get_ofFn_of_lt _ _ _ _ _ i.isLt j.isLt]
+  by_cases h : a ≤ ls.sh.getD i 0
+  · have hk : ls.sh.getD i 0 - a ≤ ls.smax := le_trans (Nat.sub_le _ _) (hsh i i.isLt)
+    have hs : a ≤ shF ls i := h
+    rw [if_pos ⟨ha, h⟩, if_pos hs, Array.getD_eq_getD_getElem?, Array.getElem?_map, powers_getElem? _ _ _ hk]
+    simp only [Option.map_some, Option.getD_some]
+    rw [← toMat_pow T ls.nb hTr hTc, ← toMat_mul _ _ ls.nb ls.nb Y.cols (by rw [pow_rows, hTr])
+      (by rw [pow_cols T (hTr.trans hTc.symm), hTc]) rfl]
+    rfl
+  · have hs : ¬ a ≤ shF ls i := h
+    rw [if_neg (fun hh => h hh.2), if_neg hs]
+    rfl
+
+theorem leadRows_cols (Tp : Array QMat) (a : Nat) (Y : QMat) : (leadRows ls Tp a Y).cols = Y.cols := rfl
+theorem leadRows_rows (Tp : Array QMat) (a : Nat) (Y : QMat) : (leadRows ls Tp a Y).rows = ls.nf := rfl
+
+theorem foldVE_succ (Af Ab : QMat) (n : Nat) :
+    foldVE ls Af Ab sol (n + 1) = stepVE ls Af sol (foldVE ls Af Ab sol n) n := by
+  unfold foldVE
+  rw [List.range_succ, List.foldl_append]
+  rfl
+
+include hsh in
+/-- invariant of the `(V, E4)` fold: after `n` steps `V` is `V_n` and the list holds `E4_1 … E4_n` -/
+theorem foldVE_view (Af Ab : QMat) (m nu nj : Nat) (hAf : Af.rows = m) (hAfc : Af.cols = ls.nf)
+    (hTr : sol.T.rows = ls.nb) (hTc : sol.T.cols = ls.nb) (hP : sol.P.cols = nu) (hX : sol.X.cols = nj)
+    (hJ : sol.J.cols = nj) (hRu : sol.Ru.cols = nu) (n : Nat) :
+    (foldVE ls Af Ab sol n).1.rows = m ∧ (foldVE ls Af Ab sol n).1.cols = nj ∧
+    (foldVE ls Af Ab sol n).1.toMat m nj =
+      C01.Vmat (sol.T.toMat ls.nb ls.nb) (shF ls) (srcF ls hsrc) (Af.toMat m ls.nf) (Ab.toMat m ls.nb)
+        (sol.X.toMat ls.nb nj) (sol.J.toMat nj nj) n ∧
+    (foldVE ls Af Ab sol n).2.length = n ∧
+    ∀ a, a < n → ((foldVE ls Af Ab sol n).2.getD a (QMat.zero 0 0)).toMat m nu =
+      C01.E4 (sol.T.toMat ls.nb ls.nb) (sol.P.toMat ls.nb nu) (shF ls) (srcF ls hsrc) (Af.toMat m ls.nf)
+        (Ab.toMat m ls.nb) (sol.X.toMat ls.nb nj) (sol.J.toMat nj nj) (sol.Ru.toMat nj nu) (a + 1) := by
+  induction n with
+  | zero =>
+    refine ⟨?_, ?_, ?_, rfl, fun a ha => absurd ha (Nat.not_lt_zero _)⟩
+    · show (-(Mq ls Af Ab sol.T * sol.X)).rows = m
+      rw [neg_rows, mul_rows, Mq_rows, hAf]
+    · show (-(Mq ls Af Ab sol.T * sol.X)).cols = nj
+      rw [neg_cols, mul_cols, hX]
+    · show (-(Mq ls Af Ab sol.T * sol.X)).toMat m nj = _
+      rw [toMat_neg _ m nj (by rw [mul_rows, Mq_rows, hAf]) (by rw [mul_cols, hX]),
+        toMat_mul _ _ m ls.nb nj (by rw [Mq_rows, hAf]) (Mq_cols ls _ _ _) hX,
+        Mq_view ls hsh hsrc Af Ab sol.T m hAf hAfc hTr hTc]
+      rfl
+  | succ n ih =>
+    obtain ⟨h1, h2, h3, h4, h5⟩ := ih
+    rw [foldVE_succ]
+    unfold stepVE
+    refine ⟨?_, ?_, ?_, ?_, ?_⟩
+    · show (_ - _ : QMat).rows = m
+      rw [sub_rows, mul_rows, h1]
+    · show (_ - _ : QMat).cols = nj
+      rw [sub_cols, mul_cols, hJ]
+    · show (_ - _ : QMat).toMat m nj = _
+      rw [toMat_sub _ _ m nj (by rw [mul_rows, h1]) (by rw [mul_cols, hJ]),
+        toMat_mul _ _ m nj nj h1 h2 hJ, h3,
+        toMat_mul _ _ m ls.nf nj hAf hAfc (by rw [leadRows_cols, hX]),
+        leadRows_view ls hsh hsrc sol.T sol.X nj hTr hTc hX (n + 1) (by omega)]
+      rfl
+    · show (_ ++ [_]).length = n + 1
+      rw [List.length_append, h4]; rfl
+    · intro a ha
+      show ((_ ++ [_]).getD a (QMat.zero 0 0)).toMat m nu = _
+      by_cases han : a < n
+      · rw [List.getD_eq_getElem?_getD, List.getElem?_append_left (by rw [h4]; exact han), ← List.getD_eq_getElem?_getD]
+        exact h5 a han
+      · have : a = n := by omega
+        subst this
+        rw [List.getD_eq_getElem?_getD, List.getElem?_append_right (by rw [h4]), h4, Nat.sub_self]
+        simp only [List.getElem?_cons_zero, Option.getD_some]
+        rw [toMat_add _ _ m nu (by rw [mul_rows, hAf]) (by rw [mul_cols, leadRows_cols, hP]),
+          toMat_mul _ _ m ls.nf nu hAf hAfc (by rw [leadRows_cols, hP]),
+          leadRows_view ls hsh hsrc sol.T sol.P nu hTr hTc hP (a + 1) (by omega),
+          toMat_mul _ _ m nj nu h1 h2 hRu, h3]
+        rfl
+
+end views
+
+/-! ### the bridge theorems for C01 -/
+
+section final
+variable (sysvec : List Token) (ne : Nat) (sys : System) (sol : Solution) (ls : LeadStruct)
+
+/-- the blocks of the unsolved system on the claimed rows, as `certificate` cuts them -/
+def selAf : QMat := colsTo (sys.A.selectRows (claimRows sysvec ne)) ls.nf
+def selAb : QMat := colsFrom (sys.A.selectRows (claimRows sysvec ne)) ls.nf
+def selBb : QMat := colsFrom (sys.B.selectRows (claimRows sysvec ne)) ls.nf
+def selC : QMat := sys.C.selectRows (claimRows sysvec ne)
+def selD : QMat := sys.D.selectRows (claimRows sysvec ne)
+
+/-- dimension side conditions on the solution matrices (`nu` shocks, `nj` unstable roots) -/
+structure SolDims (nu nj : Nat) : Prop where
+  T_rows : sol.T.rows = ls.nb
+  T_cols : sol.T.cols = ls.nb
+  K_cols : sol.K.cols = 1
+  P_cols : sol.P.cols = nu
+  X_cols : sol.X.cols = nj
+  J_cols : sol.J.cols = nj
+  Ru_cols : sol.Ru.cols = nu
+
+variable (hls : leadStruct sysvec = some ls) (nu nj : Nat)
+
+set_option quotPrecheck false
+local notation "mm" => (claimRows sysvec ne).length
+local notation "srcm" => srcF ls (leadStruct_ok sysvec ls hls).2
+local notation "Tm" => sol.T.toMat ls.nb ls.nb
+local notation "Kc" => (fun k : Fin ls.nb => sol.K.get k 0)
+local notation "Pm" => sol.P.toMat ls.nb nu
+local notation "Xm" => sol.X.toMat ls.nb nj
+local notation "Jm" => sol.J.toMat nj nj
+local notation "Rum" => sol.Ru.toMat nj nu
+local notation "Afm" => (selAf sysvec ne sys ls).toMat mm ls.nf
+local notation "Abm" => (selAb sysvec ne sys ls).toMat mm ls.nb
+local notation "Bbm" => (selBb sysvec ne sys ls).toMat mm ls.nb
+local notation "Cv" => (fun i : Fin mm => (selC sysvec ne sys).get i 0)
+local notation "Dm" => (selD sysvec ne sys).toMat mm nu
+
+/-- **Bridge (C01), refinement form.**  The matrices computed by the executable `FirstOrder.certificate` are, seen as
+Mathlib matrices, exactly the certificate matrices `E1 E2 E3 E4_a V_smax` of `Props/C01.lean` built from the views
+of the model's inputs -- for every lead structure, every size, every (rational) system and solution. -/
+theorem certificate_refines (c : Certificate) (h : certificate sysvec ne sys sol = some c)
+    (hd : SolDims sol ls nu nj) :
+    c.E1.toMat mm ls.nb = C01.E1 Tm (shF ls) srcm Afm Abm Bbm ∧
+    (fun i : Fin mm => c.E2.get i 0) = C01.E2 Tm Kc (shF ls) srcm Afm Abm Cv ∧
+    c.E3.toMat mm nu = C01.E3 Tm Pm (shF ls) srcm Afm Abm Dm ∧
+    c.E4.length = ls.smax ∧
+    (∀ a, a < ls.smax → (c.E4.getD a (QMat.zero 0 0)).toMat mm nu =
+      C01.E4 Tm Pm (shF ls) srcm Afm Abm Xm Jm Rum (a + 1)) ∧
+    c.W.toMat mm nj = C01.Vmat Tm (shF ls) srcm Afm Abm Xm Jm ls.smax := by
+  obtain ⟨ls', hls', _, h1, h2, h3, h4, h5⟩ := certificate_eq sysvec ne sys sol c h
+  have hsh := (leadStruct_ok sysvec ls hls).1
+  have hsrc := (leadStruct_ok sysvec ls hls).2
+  have hEq : ls = ls' := Option.some.inj (hls.symm.trans hls')
+  subst hEq
+  have hAf : (selAf sysvec ne sys ls).rows = mm := rfl
+  have hAfc : (selAf sysvec ne sys ls).cols = ls.nf := rfl
+  obtain ⟨g1, g2, g3, g4, g5⟩ := foldVE_view ls sol hsh hsrc (selAf sysvec ne sys ls) (selAb sysvec ne sys ls) mm nu nj
+    hAf hAfc hd.T_rows hd.T_cols hd.P_cols hd.X_cols hd.J_cols hd.Ru_cols ls.smax
+  refine ⟨?_, ?_, ?_, ?_, ?_, ?_⟩
+  · rw [h1]; exact E1_view ls hsh hsrc _ _ _ sol.T mm hAf hAfc hd.T_rows hd.T_cols
+  · rw [h2]; exact E2_view ls hsh hsrc _ _ _ sol.T sol.K mm hAf hAfc hd.T_rows hd.T_cols hd.K_cols
+  · rw [h3]; exact E3_view ls hsh hsrc _ _ _ sol.T sol.P mm nu hAf hAfc hd.T_rows hd.T_cols hd.P_cols
+  · rw [h4]; exact g4
+  · rw [h4]; exact g5
+  · rw [h5]; exact g3
+
+/-- **Bridge (C01), exact form.**  If every block of the executable certificate is exactly zero (`QMat.isZero`), the
+hypothesis `Certified` of `C01.equations_hold` holds for the views of the model's inputs. -/
+theorem certified_of_isZero (c : Certificate) (h : certificate sysvec ne sys sol = some c)
+    (hd : SolDims sol ls nu nj)
+    (z1 : c.E1.isZero = true) (z2 : c.E2.isZero = true) (z3 : c.E3.isZero = true)
+    (z4 : ∀ e ∈ c.E4, e.isZero = true) (zW : c.W.isZero = true) :
+    C01.Certified Tm Kc Pm (shF ls) srcm Afm Abm Bbm Cv Dm Xm Jm Rum ls.smax := by
+  obtain ⟨r1, r2, r3, r4, r5, r6⟩ := certificate_refines sysvec ne sys sol ls hls nu nj c h hd
+  refine ⟨fun i => (leadStruct_ok sysvec ls hls).1 i i.isLt, ?_, ?_, ?_, ?_, ?_⟩
+  · rw [← r1]; exact toMat_of_isZero _ z1 _ _
+  · rw [← r2]; funext i; exact get_of_isZero _ z2 _ _
+  · rw [← r3]; exact toMat_of_isZero _ z3 _ _
+  · intro a ha1 ha2
+    obtain ⟨a', rfl⟩ : ∃ a', a = a' + 1 := ⟨a - 1, by omega⟩
+    rw [← r5 a' (by omega)]
+    refine toMat_of_isZero _ (z4 _ ?_) _ _
+    have hlt : a' < c.E4.length := by rw [r4]; omega
+    have : c.E4.getD a' (QMat.zero 0 0) = c.E4[a'] := by simp [List.getD, hlt]
+    rw [this]
+    exact List.getElem_mem hlt
+  · rw [← r6]; exact toMat_of_isZero _ zW _ _
+
+/-- **C01 carried down to the executable model**: an exactly-zero executable certificate makes every claimed equation
+hold in every period, for every initial condition, every path of unanticipated shocks and every finite-horizon path
+of anticipated shocks. -/
+theorem equations_hold_of_certificate (c : Certificate) (h : certificate sysvec ne sys sol = some c)
+    (hd : SolDims sol ls nu nj)
+    (z1 : c.E1.isZero = true) (z2 : c.E2.isZero = true) (z3 : c.E3.isZero = true)
+    (z4 : ∀ e ∈ c.E4, e.isZero = true) (zW : c.W.isZero = true)
+    (H : ℕ) (x0 : Fin ls.nb → ℚ) (u v : ℕ → Fin nu → ℚ) (hv : ∀ s, H < s → v s = 0) (t : ℕ) :
+    C01.residAt Tm Kc Pm (shF ls) srcm Afm Abm Bbm Cv Dm x0 u v (C01.impact Pm Xm Jm Rum H v) t = 0 :=
+  C01.equations_hold _ _ _ _ _ _ _ _ _ _ _ _ _ ls.smax
+    (certified_of_isZero sysvec ne sys sol ls hls nu nj c h hd z1 z2 z3 z4 zW) H x0 u v hv t
+
+/-- **… and for the inexact certificates the driver actually sees** (solution matrices converted from floats): the
+residual of the claimed rows along any simulated path is *exactly* the combination of the executable certificate's
+blocks given by `C01.residAt_expansion` -- so bounds on the printed `maxAbs` of the blocks bound the residual. -/
+theorem residAt_of_certificate (c : Certificate) (h : certificate sysvec ne sys sol = some c)
+    (hd : SolDims sol ls nu nj)
+    (H : ℕ) (x0 : Fin ls.nb → ℚ) (u v : ℕ → Fin nu → ℚ) (hv : ∀ s, H < s → v s = 0) (t : ℕ) :
+    C01.residAt Tm Kc Pm (shF ls) srcm Afm Abm Bbm Cv Dm x0 u v (C01.impact Pm Xm Jm Rum H v) t
+      = c.E1.toMat mm ls.nb *ᵥ C01.path Tm Kc Pm x0 u (C01.impact Pm Xm Jm Rum H v) t
+        + (fun i : Fin mm => c.E2.get i 0)
+        + c.E3.toMat mm nu *ᵥ (u (t + 1) + v (t + 1))
+        + (∑ a ∈ Finset.range ls.smax, (c.E4.getD a (QMat.zero 0 0)).toMat mm nu *ᵥ v (t + 1 + (a + 1)))
+        + c.W.toMat mm nj *ᵥ C01.phi Jm Rum H v (t + 1 + ls.smax) := by
+  obtain ⟨r1, r2, r3, _, r5, r6⟩ := certificate_refines sysvec ne sys sol ls hls nu nj c h hd
+  rw [C01.residAt_expansion Tm Kc Pm (shF ls) srcm Afm Abm Bbm Cv Dm Xm Jm Rum ls.smax ls.smax
+    (fun i => (leadStruct_ok sysvec ls hls).1 i i.isLt) le_rfl H x0 u v hv t, r1, r2, r3, r6]
+  congr 2
+  exact Finset.sum_congr rfl (fun a ha => by rw [r5 a (Finset.mem_range.1 ha)])
+
+end final
+
+
+/-
+What is NOT bridged for C01:
+* `bLead = 0` (the stacked `B` reads no lead column on the claimed rows) is an assumption built into `C01.resid`; the
+  executable certificate reports it, the bridge does not use it;
+* the views `Afm Abm Bbm Cv Dm` are views of the *selected and cut* blocks (`selectRows` + `block`); unfolding them to
+  submatrices of the views of `sys.A … sys.D` is `toMat_selectRows` + `toMat_block` (not done here, not needed);
+* `SolDims` (dimension side conditions on `T K P X J Ru`) is a hypothesis: the driver parses these matrices from text,
+  nothing in the model enforces their dimensions;
+* the simulation part of the model (`simulateFrame`, `antImpact`, `expansion`) is not connected to `C01.path`,
+  `C01.impact`, `C01.Rexp` (these need `toMat_mul`, `toMat_add`, `toMat_pow`, `toMat_block` and the same
+  `powers_getD` used here);
+* the stability certificate (`infNorm`, `powTwo`, `stableCert`) is not connected to `C01.RowSumLe`/`nonexplosive`.
+-/
+
+end C01
+
+/-! ## Non-vacuity: the hypotheses of the bridge theorems are met by concrete runs of the executable models
+(evaluated by the kernel with `decide +kernel`; nothing beyond the standard kernel trust base) -/
+
+namespace Examples
+open IrisVerif.FirstOrder
+
+/-- `y = (1, 2, 5, 4)`, one lag and an intercept: three fitted periods, two regressors, non-zero residuals -/
+def exS : Spec := ⟨1, 0, 1, true⟩
+def exY : OMat := ⟨1, 4, #[#[some 1, some 2, some 5, some 4]]⟩
+def exX : OMat := ⟨0, 4, #[]⟩
+
+theorem ex_estimate_ok :
+    ((estimate exS false exY exX none).toOption.map (fun e => e.fittedCols)) = some [0, 1, 2] := by decide +kernel
+
+/-- hypothesis `h` of `estimate_normalEq`/`estimate_minimises` -/
+example : ∃ e, estimate exS false exY exX none = .ok e ∧ e.fittedCols = [0, 1, 2] := by
+  have h := ex_estimate_ok
+  cases hh : estimate exS false exY exX none with
+  | error err => rw [hh] at h; cases h
+  | ok e =>
+    rw [hh] at h
+    simp only [Except.toOption, Option.map_some, Option.some.injEq] at h
+    exact ⟨e, rfl, h⟩
+
+/-- the forward-looking model of `Props/C01.lean` (non-vacuity section):
+`x[t] = 3/8 x[t-1] + 1/2 E x[t+1] + 1 + e[t]`, stacked vector `(x[t+1], x[t])`, one claimed row -/
+def exVec : List Token := [⟨0, 1⟩, ⟨0, 0⟩]
+def exSys : System :=
+  ⟨QMat.ofRows [[1/2, -1], [0, 1]], QMat.ofRows [[0, 3/8], [-1, 0]], QMat.ofRows [[1], [0]], QMat.ofRows [[1], [0]]⟩
+def exSol : Solution :=
+  ⟨QMat.ofRows [[1/2]], QMat.ofRows [[4]], QMat.ofRows [[4/3]], QMat.ofRows [[1]], QMat.ofRows [[2/3]], QMat.ofRows [[-8/9]]⟩
+
+def certExact (c : Certificate) : Bool :=
+  c.E1.isZero && c.E2.isZero && c.E3.isZero && c.E4.all QMat.isZero && c.W.isZero
+
+theorem ex_certificate : (certificate exVec 1 exSys exSol).map certExact = some true := by decide +kernel
+theorem ex_leadStruct : (leadStruct exVec).map (fun ls => (ls.nf, ls.nb, ls.smax)) = some (1, 1, 1) := by
+  decide +kernel
+
+/-- all hypotheses of `equations_hold_of_certificate` at once -/
+example : ∃ c ls, certificate exVec 1 exSys exSol = some c ∧ leadStruct exVec = some ls ∧ SolDims exSol ls 1 1 ∧
+    c.E1.isZero = true ∧ c.E2.isZero = true ∧ c.E3.isZero = true ∧ (∀ e ∈ c.E4, e.isZero = true) ∧
+    c.W.isZero = true := by
+  have h1 := ex_certificate
+  have h2 := ex_leadStruct
+  cases hc : certificate exVec 1 exSys exSol with
+  | none => rw [hc] at h1; cases h1
+  | some c =>
+    cases hl : leadStruct exVec with
+    | none => rw [hl] at h2; cases h2
+    | some ls =>
+      rw [hc] at h1
+      rw [hl] at h2
+      simp only [Option.map_some, Option.some.injEq, Prod.mk.injEq] at h1 h2
+      unfold certExact at h1
+      simp only [Bool.and_eq_true, List.all_eq_true] at h1
+      obtain ⟨⟨⟨⟨z1, z2⟩, z3⟩, z4⟩, zW⟩ := h1
+      obtain ⟨_, hnb, _⟩ := h2
+      refine ⟨c, ls, rfl, rfl, ⟨?_, ?_, rfl, rfl, rfl, rfl, rfl⟩, z1, z2, z3, z4, zW⟩
+      · rw [hnb]; rfl
+      · rw [hnb]; rfl
+
+end Examples
 
 end IrisVerif.QMatBridge
